@@ -70,13 +70,13 @@ theorem Mon.ok_anti (m : Mon) (l : List Out) (h : (m.run l).ok = true) : m.ok = 
     exact this.1.1
 
 /-- the invariant: the trace is acceptable so far, `established` (GnuTLS' flag and libcoap's session state) implies
-the oracle reported success, the session is a DTLS session; `b` = the caller already knows success was reported -/
+the oracle reported success, the session is a DTLS or a TLS session; `b` = the caller already knows success was reported -/
 structure Inv (m0 : Mon) (b : Bool) (c : Ctx) : Prop where
   ok : (m0.run c.out).ok = true
   est : c.s.est = true → (m0.run c.out).seen = true
   st : c.s.state = .established → (m0.run c.out).seen = true
   known : b = true → (m0.run c.out).seen = true
-  proto : c.s.proto = .dtls
+  proto : c.s.proto ≠ .udp
 
 theorem Inv.weaken {m0 b c} (h : Inv m0 b c) : Inv m0 false c :=
   { h with known := by simp }
@@ -166,6 +166,21 @@ theorem sessionClose_inv (h : Inv m0 b c) : Inv m0 b c.sessionClose := by
   split
   · exact h
   · exact dtlsFreeSession_inv h
+  · exact inv_upd _ (by simp) (by simp) (by simp) (dtlsFreeSession_inv h)
+
+theorem inv_ite_emit_inert (p : Prop) [Decidable p] (o : Out) (ho : o.inert = true) (h : Inv m0 b c) :
+    Inv m0 b (if p then c.emit o else c) :=
+  inv_ite (fun _ => inv_emit_inert o ho h) fun _ => h
+
+theorem evTcp_inert (e : TcpEv) : (Out.evTcp e).inert = true := rfl
+
+theorem relTail_inv (st0 : SState) (h : Inv m0 b c) : Inv m0 b (c.relTail st0) := by
+  unfold Ctx.relTail
+  refine inv_ite (fun _ => ?_) fun _ => h
+  simp only
+  apply inv_upd _ (by simp) (by simp) (by simp)
+  have h1 := inv_ite_emit_inert (c.s.sockOpen = true) (.evTcp (if st0 = .connecting then .failed else .closed)) (evTcp_inert _) h
+  exact inv_ite_emit_inert (st0 ≠ .none) (.evTcp (if st0 = .established then .sessClosed else .sessFailed)) (evTcp_inert _) h1
 
 theorem nackOf_inert (r : Nack) (l : List QMsg) : ∀ o ∈ l.map (nackOf r), o.inert = true := by
   intro o ho
@@ -208,6 +223,7 @@ theorem disconnected_inv (r : Nack) (h : Inv m0 b c) : Inv m0 b (c.disconnected 
   split
   · exact h1
   · apply sessionClose_inv
+    apply relTail_inv
     apply inv_upd _ (by simp) (by simp) (by simp)
     apply inv_outs_inert _ (nackOf_inert _ _)
     apply inv_upd _ (by simp) _ (by simp) h1
@@ -238,6 +254,8 @@ theorem sndResult_inv (h : Inv m0 b c) : Inv m0 b c.sndResult := by
   · exact inv_setRet _ h'
   · exact inv_setRet _ h'
   · exact inv_setRet _ (inv_upd _ (by simp) (by simp) (by simp) h')
+  · exact inv_setRet _ h'
+  · exact inv_setRet _ h'
   · exact inv_setRet _ h'
 
 /-- writing a PDU through the TLS layer is acceptable once the oracle has reported success -/
@@ -276,11 +294,60 @@ theorem sendTail_inv (h : Inv m0 b c) : Inv m0 b c.sendTail := by
 theorem dtlsSend_inv (m : QMsg) (ack : Bool) (h : Inv m0 true c) : Inv m0 true (c.dtlsSend m ack) :=
   sendTail_inv (dtlsSendCore_inv m ack h)
 
+/-! TLS over TCP: the write side -/
+
+theorem tlsTail_inv (h : Inv m0 b c) : Inv m0 b c.tlsTail := by
+  unfold Ctx.tlsTail
+  split
+  · simp only
+    rename_i e _
+    have h1 := inv_ite_emit_inert (e ≠ .closed) (.ev e) rfl h
+    exact inv_ite (fun _ => inv_setRet _ (disconnected_inv _ h1)) fun _ => h1
+  · exact h
+
+theorem tlsRecordSend_inv (m : QMsg) (ack : Bool) (h : Inv m0 true c) : Inv m0 true (c.tlsRecordSend m ack) := by
+  unfold Ctx.tlsRecordSend
+  simp only
+  have h1 := popSnd_inv (inv_upd (fun s => { s with dtlsEvent := none }) (by simp) (by simp) (by simp) (inv_emit_tx m.strmView (m.snOf ack) h))
+  apply tlsTail_inv
+  split
+  · exact inv_setRet _ h1
+  · exact inv_setRet _ h1
+  · exact inv_setRet _ (inv_upd _ (by simp) (by simp) (by simp) h1)
+  · exact inv_setRet _ (inv_upd _ (by simp) (by simp) (by simp) h1)
+  · exact inv_setRet _ h1
+  · exact inv_setRet _ (inv_emit_inert _ rfl h1)
+
+/-- any session update keeps the invariant once the oracle is known to have reported success -/
+theorem inv_upd_true (f : Sess → Sess) (hp : (f c.s).proto = c.s.proto) (h : Inv m0 true c) : Inv m0 true (c.upd f) := by
+  obtain ⟨h1, h2, h3, h4, h5⟩ := h
+  have := h4 rfl
+  constructor <;> simp_all [Ctx.upd]
+
+theorem sendCsm_inv (h : Inv m0 true c) : Inv m0 true c.sendCsm := by
+  unfold Ctx.sendCsm
+  simp only
+  have h1 := inv_upd_true (fun s => { s with next := s.next + 1 }) (by simp)
+    (inv_upd_true (fun s => { s with state := .csm }) (by simp) h)
+  have key : ∀ X : Ctx, Inv m0 true X → Inv m0 true (if X.ret ≠ 1 then X.disconnected .undeliv else X) :=
+    fun X hX => inv_ite (fun _ => disconnected_inv _ hX) fun _ => hX
+  apply key
+  exact inv_ite (fun _ => tlsRecordSend_inv _ false h1) fun _ => inv_setRet (-1) (inv_emit_inert (.unmodelled "csm-before-established") rfl h1)
+
+theorem tlsWrite_inv (m : QMsg) (ack : Bool) (h : Inv m0 true c) : Inv m0 true (c.tlsWrite m ack) := by
+  unfold Ctx.tlsWrite
+  refine inv_ite (fun _ => tlsRecordSend_inv m ack h) fun _ => ?_
+  simp only
+  have h1 := doHandshake_inv (inv_upd (fun s => { s with dtlsEvent := none }) (by simp) (by simp) (by simp) (inv_emit_tx m.strmView (m.snOf ack) h))
+  apply tlsTail_inv
+  exact inv_ite (fun _ => inv_setRet _ (sendCsm_inv (inv_emit_inert _ rfl h1))) fun _ => inv_setRet _ h1
+
 theorem sessionSendPdu_inv (m : QMsg) (ack : Bool) (h : Inv m0 true c) : Inv m0 true (c.sessionSendPdu m ack) := by
   unfold Ctx.sessionSendPdu
   split
   · have := h.proto; simp_all
   · exact dtlsSend_inv m ack h
+  · exact tlsWrite_inv m ack h
 
 theorem sendPdu_inv (m : QMsg) (ack fn : Bool) (h : Inv m0 b c) : Inv m0 b (c.sendPdu m ack fn) := by
   unfold Ctx.sendPdu
@@ -308,12 +375,6 @@ open Ctx
 section
 variable {m0 : Mon} {b : Bool} {c : Ctx}
 
-/-- any session update keeps the invariant once the oracle is known to have reported success -/
-theorem inv_upd_true (f : Sess → Sess) (hp : (f c.s).proto = c.s.proto) (h : Inv m0 true c) : Inv m0 true (c.upd f) := by
-  obtain ⟨h1, h2, h3, h4, h5⟩ := h
-  have := h4 rfl
-  constructor <;> simp_all [Ctx.upd]
-
 theorem flushOne_inv (q : QMsg) (rest : List QMsg) (h : Inv m0 true c) : Inv m0 true (c.flushOne q rest) := by
   unfold Ctx.flushOne
   exact inv_upd_true _ (by simp) (sessionSendPdu_inv q false (inv_upd_true _ (by simp) h))
@@ -330,13 +391,16 @@ theorem flushLoop_inv (fuel : Nat) (h : Inv m0 true c) : Inv m0 true (flushLoop 
       · split
         · exact h
         · simp only
-          split
-          · exact flushOne_inv _ _ h
-          · exact ih (flushOne_inv _ _ h)
+          have h1 := flushOne_inv ‹QMsg› ‹List QMsg› h
+          refine inv_ite (fun _ => inv_ite (fun _ => inv_upd_true _ (by simp) h1) fun _ => ih h1) fun _ =>
+            inv_ite (fun _ => h1) fun _ => ih h1
 
 theorem sessionConnected_inv (h : Inv m0 true c) : Inv m0 true c.sessionConnected := by
   unfold Ctx.sessionConnected
-  exact flushLoop_inv _ (inv_upd_true _ (by simp) h)
+  simp only
+  have h1 : Inv m0 true (if c.s.state = .csm then (c.emit (.evTcp .sessConnected)).upd fun s => { s with doingFirst := false } else c) :=
+    inv_ite (fun _ => inv_upd_true _ (by simp) (inv_emit_inert _ rfl h)) fun _ => h
+  exact flushLoop_inv _ (inv_upd_true _ (by simp) h1)
 
 theorem sessionFree_inv (h : Inv m0 b c) : Inv m0 b c.sessionFree := by
   unfold Ctx.sessionFree
@@ -462,6 +526,8 @@ theorem recvEst_inv (h : Inv m0 true c) : Inv m0 true c.recvEst := by
   · exact receiveTail_inv (inv_upd_true _ (by simp) h2)
   · exact receiveTail_inv (inv_upd_true _ (by simp) h2)
   · exact receiveTail_inv h2
+  · exact receiveTail_inv h2
+  · exact receiveTail_inv h2
 
 theorem recvHs_inv (h : Inv m0 b c) : Inv m0 b c.recvHs := by
   unfold Ctx.recvHs
@@ -546,6 +612,78 @@ theorem handleDgramForProto_inv (h : Inv m0 b c) : Inv m0 b c.handleDgramForProt
     have h2 := inv_upd (fun s => { s with typ := .server, state := .handshake }) (by simp) (by simp) (by simp) h1
     exact inv_ite (fun _ => disconnected_inv _ h2) fun _ => h2
 
+/-! TLS over TCP: establish, read, dispatch, the application's send -/
+
+theorem tlsEstablish_inv (h : Inv m0 b c) : Inv m0 b c.tlsEstablish := by
+  unfold Ctx.tlsEstablish
+  simp only
+  have h1 := popEnv_inv (inv_upd (fun s => { s with state := .handshake }) (by simp) (by simp) (by simp) h)
+  refine inv_ite (fun _ => disconnected_inv _ h1) fun _ => ?_
+  have h2 := inv_upd (fun s => { s with tls := true }) (by simp) (by simp) (by simp) h1
+  refine inv_ite (fun hr => ?_) fun _ => doHandshake_inv h2
+  exact (sendCsm_inv (inv_emit_inert _ rfl (doHandshake_ret1 h2 hr))).relax
+
+theorem dispatchStrm_inv (v : View) (h : Inv m0 true c) : Inv m0 true (c.dispatchStrm v) := by
+  unfold Ctx.dispatchStrm
+  refine inv_ite (fun _ => inv_ite (fun _ => sessionConnected_inv h) fun _ => h) fun _ => ?_
+  refine inv_ite (fun _ => inv_emit_inert _ rfl h) fun _ => inv_ite (fun _ => inv_emit_inert _ rfl h) fun _ => ?_
+  refine inv_ite (fun _ => ?_) fun _ => inv_ite (fun _ => inv_emit_handler _ rfl rfl h) fun _ => inv_emit_inert _ rfl h
+  simp only
+  exact sendPdu_inv _ _ _ (inv_upd_true _ (by simp) (inv_emit_handler _ rfl rfl h))
+
+theorem tlsReadHs_inv (h : Inv m0 b c) : Inv m0 b c.tlsReadHs := by
+  unfold Ctx.tlsReadHs
+  refine inv_ite (fun _ => ?_) fun _ => inv_setRet _ h
+  simp only
+  refine inv_ite (fun hr => ?_) fun _ => doHandshake_inv h
+  exact (inv_setRet _ (sendCsm_inv (inv_emit_inert _ rfl (doHandshake_ret1 h hr)))).relax
+
+theorem readEnd_inv (h : Inv m0 b c) : Inv m0 b c.readEnd := by
+  unfold Ctx.readEnd
+  simp only
+  exact inv_ite (fun _ => disconnected_inv _ (tlsTail_inv h)) fun _ => tlsTail_inv h
+
+theorem strmRead_inv (h : Inv m0 b c) : Inv m0 b c.strmRead := by
+  unfold Ctx.strmRead
+  refine inv_ite (fun _ => disconnected_inv _ h) fun _ => ?_
+  simp only
+  have h1 := tlsReadHs_inv (inv_upd (fun s => { s with dtlsEvent := none }) (by simp) (by simp) (by simp) h)
+  generalize (c.upd fun s => { s with dtlsEvent := none }).tlsReadHs = c1 at h1
+  refine inv_ite (fun he => ?_) fun _ => readEnd_inv h1
+  have he' : c1.s.est = true := by simp at he; exact he.2
+  have h2 : Inv m0 true c1.popRec := popRec_inv (h1.strengthen (h1.est he'))
+  refine Inv.relax ?_
+  split
+  · have h3 := tlsTail_inv (inv_setRet 1 h2)
+    exact inv_ite (fun _ => dispatchStrm_inv _ h3) fun _ => inv_ite (fun _ => disconnected_inv _ h3) fun _ => h3
+  · exact inv_emit_inert _ rfl h2
+  · exact readEnd_inv (inv_setRet _ (inv_upd_true _ (by simp) h2))
+  · exact readEnd_inv (inv_setRet _ h2)
+  · exact readEnd_inv (inv_setRet _ (inv_upd_true _ (by simp) h2))
+  · exact readEnd_inv (inv_setRet _ (inv_upd_true _ (by simp) h2))
+  · exact readEnd_inv (inv_setRet _ (inv_upd_true _ (by simp) h2))
+  · exact readEnd_inv (inv_setRet _ h2)
+
+theorem tcpConnect_inv (ok : Bool) (h : Inv m0 b c) : Inv m0 b (c.tcpConnect ok) := by
+  unfold Ctx.tcpConnect
+  exact inv_ite (fun _ => tlsEstablish_inv (inv_emit_inert _ rfl h)) fun _ => disconnected_inv _ (inv_emit_inert _ rfl h)
+
+theorem strmWrite_inv (h : Inv m0 b c) : Inv m0 b c.strmWrite := by
+  unfold Ctx.strmWrite
+  exact inv_ite (fun _ => h) fun _ => inv_emit_inert _ rfl h
+
+theorem appSendStrm_inv (w : Bool) (code mid : Nat) (tok : String) (h : Inv m0 b c) : Inv m0 b (c.appSendStrm w code mid tok) := by
+  unfold Ctx.appSendStrm
+  refine inv_ite (fun _ => inv_emit_inert _ rfl h) fun _ => inv_ite (fun _ => inv_emit_inert _ rfl h) fun _ => ?_
+  simp only
+  have h0 := inv_upd (fun s => { s with doingFirst := false }) (by simp) (by simp) (by simp) h
+  have h1 : Inv m0 b (if c.s.doingFirst = true then
+      (if (c.upd fun s => { s with doingFirst := false }).s.state = .csm
+       then (c.upd fun s => { s with doingFirst := false }).emit (.unmodelled "csm-timeout")
+       else c.upd fun s => { s with doingFirst := false }) else c) :=
+    inv_ite (fun _ => inv_ite (fun _ => inv_emit_inert _ rfl h0) fun _ => h0) fun _ => h
+  exact sendInternal_inv _ _ (inv_upd _ (by simp) (by simp) (by simp) h1)
+
 theorem stepCtx_inv (s : Sess) (e : Ev) (orc : List Orc) (h : Inv m0 false { s := s, orc := orc }) :
     Inv m0 false (s.stepCtx e orc) := by
   unfold Sess.stepCtx
@@ -559,6 +697,10 @@ theorem stepCtx_inv (s : Sess) (e : Ev) (orc : List Orc) (h : Inv m0 false { s :
   · exact disconnected_inv _ h
   · exact maybeFree_inv (inv_upd _ (by simp) (by simp) (by simp) h)
   · exact sessionFree_inv (inv_emit_inert _ rfl h)
+  · exact maybeFree_inv (tcpConnect_inv _ h)
+  · exact maybeFree_inv (strmRead_inv h)
+  · exact maybeFree_inv (strmWrite_inv h)
+  · exact appSendStrm_inv _ _ _ _ h
 
 end
 end Coap.TlsGate
